@@ -57,6 +57,50 @@ def rejects(facts, want):
 
 def check(m, run):
     el, rd = m.func('helpers.degree_elevation'), m.func('helpers.degree_reduction')
+    # elevation and reduction are decided exactly on symbolic polygons, inadmissible requests included (EL2); the rules that read the
+    # spelling of the validation block, of Eq. 5.36 and of the end-point assignments corroborate
+    from .. import skel_drivers as _sd
+    n0 = len(run.obs)
+    _sd.el2(m, run)
+    el_ok = all(o.ok for o in run.obs[n0:])
+    with run.corroborating(el_ok, 'EL2', rules=('GD4.validation-guard', 'GD4.validation-before-work', 'GD4.validation-default-on')):
+        _gd4_syntactic(m, run, el, rd)
+    for fi in (el, rd):
+        pts = params_of(fi.node)[1]
+        P = Purity(m)
+        mu = [x for x in P.summary(fi).mutations if x.root == 'param:' + pts]
+        run.ob('PU1.input-not-mutated', fi.key, not mu, 'control polygon is only read' if not mu else 'input polygon mutated at `%s`' % norm(mu[0].node)[:70], site(fi))
+    with run.corroborating(el_ok, 'EL2', rules=('EQ536.sum-range', 'EQ536.binomials', 'EQ536.rows', 'END1.end-points-kept', 'DK1.accumulator-shape')):
+        for fi_ in (el, rd):
+            dk1(run, fi_, params_of(fi_.node)[1])
+        eq536(m, run, el)
+        end1(m, run, rd)
+    from . import c16 as _c16
+    _c16.check_binomial(m, run)
+    n1 = len(run.obs)
+    _sd.do2(m, run)
+    do_ok = all(o.ok for o in run.obs[n1:])
+    with run.corroborating(do_ok, 'DO2', rules=('KV2.pad-ends', 'KV2.segment-knots-from-own-knots')):
+        kv2(m, run)
+    # the definition protocol is decided by interpreting the real setters on abstract curves (DO3); the rule that reads the order of the
+    # three assignments in each block corroborates
+    n2 = len(run.obs)
+    try:
+        _sd.do3(m, run)
+    except AnalysisError as ex:
+        run.error(str(ex))
+    pr_ok = len(run.obs) > n2 and all(o.ok for o in run.obs[n2:])
+    with run.corroborating(pr_ok, 'DO3', rules=('PR1.degree-then-points-then-knots',)):
+        pr1(m, run)
+    skel_rows(m, run)
+    run.floor('GD4.validation-guard', 4, 'bezier x2, num, degree<2')
+    run.floor('DK1.accumulator-shape', 2, 'elevation and reduction accumulators')
+    # degree_operations and the decomposition before it work on deep copies: the copy shares nothing with the curve it was taken from
+    from .. import rules_state as _rs
+    _rs.iv4_deepcopy(m, run)
+
+
+def _gd4_syntactic(m, run, el, rd):
     for fi, conds in ((el, ('bezier', 'num')), (rd, ('bezier', 'degree2'))):
         ps = params_of(fi.node)
         deg, pts = ps[0], ps[1]
@@ -96,34 +140,6 @@ def check(m, run):
                and n.value.func.attr == 'get' and n.value.args and isinstance(n.value.args[0], ast.Constant) and 'check' in str(n.value.args[0].value)]
         okf = bool(flg) and len(flg[0].value.args) == 2 and isinstance(flg[0].value.args[1], ast.Constant) and flg[0].value.args[1].value is True
         run.ob('GD4.validation-default-on', fi.key, okf, 'validation enabled by default' if okf else 'validation flag does not default to True', site(fi))
-        P = Purity(m)
-        mu = [x for x in P.summary(fi).mutations if x.root == 'param:' + pts]
-        run.ob('PU1.input-not-mutated', fi.key, not mu, 'control polygon is only read' if not mu else 'input polygon mutated at `%s`' % norm(mu[0].node)[:70], site(fi))
-    # elevation and reduction are decided exactly on symbolic polygons (EL2); the rules that read the index spelling of Eq. 5.36 / the
-    # end-point assignments corroborate
-    from .. import skel_drivers as _sd
-    n0 = len(run.obs)
-    _sd.el2(m, run)
-    el_ok = all(o.ok for o in run.obs[n0:])
-    with run.corroborating(el_ok, 'EL2', rules=('EQ536.sum-range', 'EQ536.binomials', 'EQ536.rows', 'END1.end-points-kept', 'DK1.accumulator-shape')):
-        for fi_ in (el, rd):
-            dk1(run, fi_, params_of(fi_.node)[1])
-        eq536(m, run, el)
-        end1(m, run, rd)
-    from . import c16 as _c16
-    _c16.check_binomial(m, run)
-    n1 = len(run.obs)
-    _sd.do2(m, run)
-    do_ok = all(o.ok for o in run.obs[n1:])
-    with run.corroborating(do_ok, 'DO2', rules=('KV2.pad-ends', 'KV2.segment-knots-from-own-knots')):
-        kv2(m, run)
-    pr1(m, run)
-    skel_rows(m, run)
-    run.floor('GD4.validation-guard', 4, 'bezier x2, num, degree<2')
-    run.floor('DK1.accumulator-shape', 2, 'elevation and reduction accumulators')
-    # degree_operations and the decomposition before it work on deep copies: the copy shares nothing with the curve it was taken from
-    from .. import rules_state as _rs
-    _rs.iv4_deepcopy(m, run)
 
 
 def pr1(m, run):
